@@ -35,6 +35,12 @@ def jobs(tier):
             base = {"max": mx, "min": mn, "tasks": ["gate0"], "clients": clients, "props": ["exactly_once", "nodeadlock", "results"],
                     "window_at": k, "twin_prog": "progress"}
             out.append((dict(base, name="c11-join-timeout-max{0}min{1}-op{2}".format(mx, mn, k)), full))
+        # join(0): returns at once although a task is blocked (a zero time-out is not "no time-out")
+        clients = [["start", "enq0", "joinz0", "open0", "await0", "stop"]]
+        for k in (2,):
+            base = {"max": mx, "min": mn, "tasks": ["gate0"], "clients": clients, "props": ["exactly_once", "nodeadlock", "results"],
+                    "window_at": k, "twin_prog": "progress"}
+            out.append((dict(base, name="c11-join-zero-max{0}min{1}-op{2}".format(mx, mn, k)), full))
         # stop() with running and queued tasks, concurrent enqueue from another client
         clients = [["start", "enq0", "enq1", "stop"], ["enq2"]]
         for k in (1, 2, 3):
@@ -56,6 +62,22 @@ def jobs(tier):
             base = {"max": mx, "min": mn, "tasks": ["gate0", "ret"], "clients": clients, "W": mx + 2, "gates": 2,
                     "props": ["exactly_once", "nodeadlock", "results", "bounded", "no_run_after_stop"], "window_at": k, "twin_prog": "progress"}
             out.append((dict(base, name="c11-restart-after-busy-stop-max{0}min{1}-op{2}".format(mx, mn, k)), dict(full, depth=full["depth"] + 2)))
+        # stop() with two live workers: the window starts when the first one has exited
+        if mx >= 2:
+            clients = [["start", "enq0", "enq1", "await0", "await1", "stop"]]
+            base = {"max": mx, "min": 2, "tasks": ["ret", "ret"], "clients": clients, "W": mx + 1,
+                    "props": ["exactly_once", "nodeadlock", "stopped_clean", "no_run_after_stop"], "window_at": 5,
+                    "prefix": [("rr_cond", "stop_markers_queued", [0] + list(range(1, 1 + mx + 1)))]}
+            if mn == 0:
+                # (stop() has queued one stop marker per worker; both workers are still alive)
+                out.append((dict(base, name="c11-stop-two-workers-max{0}".format(mx)), dict(full, depth=full["depth"] + 6, timeout=600)))
+        # a task that raises a BaseException (SystemExit-like): its worker dies, but the pool's
+        # bookkeeping stays consistent: join() and stop() still return
+        clients = [["start", "enq0", "join0", "stop"]]
+        for k in (1, 2):
+            base = {"max": mx, "min": mn, "tasks": ["raise_base"], "clients": clients, "W": mx + 1,
+                    "props": ["exactly_once", "nodeadlock", "stopped_clean"], "join_covers": {"join0": []}, "window_at": k, "twin_prog": "progress"}
+            out.append((dict(base, name="c11-base-exception-max{0}min{1}-op{2}".format(mx, mn, k)), dict(full, depth=full["depth"] + 2)))
         # stop() while a task is blocked: returns once another client releases it
         clients = [["start", "enq0", "stop"], ["open0"]]
         for k in (1, 2):
